@@ -373,6 +373,11 @@ impl ScenarioOut {
     }
 }
 
+/// The instant at which the process-wide time line starts (= the server's rounding epoch).
+pub static PROCESS_BASE: std::sync::OnceLock<std::time::Instant> = std::sync::OnceLock::new();
+/// Every execution's runtime starts this long after `PROCESS_BASE`.
+pub const EXEC_OFFSET_US: u64 = 500;
+
 /// Measures the phase (µs) of the current instant on the server's deadline grid through the public API.
 pub fn grid_phase_us() -> u64 {
     let now = Instant::now();
@@ -382,10 +387,18 @@ pub fn grid_phase_us() -> u64 {
 /// Must be called once per process before any worker thread runs an execution: pins the server's lazily
 /// initialised rounding epoch to an instant that precedes every later runtime.
 pub fn init_process() {
+    // One time line for the whole process: every runtime (this one and the one of every execution) starts, paused, at a
+    // pinned instant (tokio patch: `verif_hook::set_clock_base`).  The server's epoch is the start of this first
+    // runtime; executions start exactly 500 us later, so that the offset between the server's rounding epoch and a
+    // runtime's 1 ms timer grid is the same - and generic, i.e. not 0 - in every execution, whatever the rounding is.
+    let base = std::time::Instant::now();
+    let _ = PROCESS_BASE.set(base);
+    tokio::verif_hook::set_clock_base(Some(base));
     let rt = tokio::runtime::Builder::new_current_thread().enable_time().start_paused(true).build().unwrap();
     rt.block_on(async {
         let _ = grid_phase_us();
     });
+    tokio::verif_hook::set_clock_base(None);
     let prev = std::panic::take_hook();
     std::panic::set_hook(Box::new(move |info| {
         let msg = format!("{}", info);
@@ -424,17 +437,17 @@ where
         let k = shared.lock().unwrap().pick(Kind::Data, "phase", cfg.phase_choices.len());
         cfg.phase_choices[k] % 100_000
     };
-    // The runtime's 1 ms timer grid is anchored at the (wall-clock) instant the runtime is created, the server's
-    // 100 ms deadline grid at a process-wide epoch.  Their offset modulo 1 ms is therefore random.  Every offset
-    // strictly inside (0, 1 ms) behaves identically at the whole-millisecond instants the harness uses; an offset of
-    // (almost) exactly 0 does not.  Re-create the runtime until the offset is safely inside.
-    let (rt, delta) = loop {
+    // A runtime's 1 ms timer grid is anchored at the instant the runtime starts, the server's deadline rounding at a
+    // process-wide epoch.  Left to the wall clock their offset would be random, and executions would only be
+    // reproducible for roundings the harness knows.  Both are pinned instead (see `init_process`).
+    let (rt, delta) = {
+        let base = *PROCESS_BASE.get().expect("init_process was not called");
+        tokio::verif_hook::set_clock_base(Some(base + Duration::from_micros(EXEC_OFFSET_US)));
         let rt = tokio::runtime::Builder::new_current_thread().enable_time().start_paused(true).build().unwrap();
-        let phase = rt.block_on(async { grid_phase_us() });
-        let delta = (want + 100_000 - phase % 100_000) % 100_000;
-        if (5..=995).contains(&(delta % 1000)) {
-            break (rt, delta);
-        }
+        tokio::verif_hook::set_clock_base(None);
+        // the runtime starts EXEC_OFFSET_US after the server's epoch; t0 is to be `want` us into a 100 ms period
+        let delta = (want + 100_000 - EXEC_OFFSET_US % 100_000) % 100_000;
+        (rt, delta)
     };
     deltio::verif::install(Some(Arc::new(Ctl(shared.clone()))));
     tokio::verif_hook::set_controller(Some(Arc::new(Ctl(shared.clone()))));
@@ -452,7 +465,8 @@ where
         }
         // align t0 with the requested phase of the 100 ms grid
         tokio::time::advance(Duration::from_micros(delta)).await;
-        debug_assert_eq!(grid_phase_us() % 100_000, want);
+        // (If the server's rounding is not the 100 ms grid the alignment assumes - a changed precision, say - the
+        // phase is simply whatever it is: the oracles do not depend on it, they only allow the stated slack.)
         let t0 = Instant::now();
         shared.lock().unwrap().t0 = Some(t0);
         let app = Arc::new(Deltio::new());
